@@ -24,6 +24,7 @@ SPELL = {
     'b': ['1', '2.5', 'true', '42'],
     'o': ['*', '<', 'and', 'or', '/', '>='],
     'X': ['#', '@', '^'],
+    'B': ['7' * 4400],          # a numeral longer than the interpreter's str -> int conversion limit
 }
 
 MODEL_TEXTS = [
@@ -191,14 +192,16 @@ CONSTANTS
 
 
 def mc_module(texts):
-    return ('---- MODULE MC_EngineParse ----\nEXTENDS EngineParse\nMCTexts == %s\n'
+    return ('---- MODULE MC_EngineParse ----\nEXTENDS EngineParse\nMCTexts == %s\nMCToggle == TRUE\n'
             'PrintTerminal == IF AllDone THEN PrintT(<<"T", text, sched, [p \\in Parses |-> result[p].kind]>>) ELSE TRUE\n'
             '====\n' % tlaval.to_tla(tuple(tuple(t) for t in texts)))
 
 
-def job(wd, texts, np, shared, seq, invs, view=True, terminals=False, timeout=1800, allow=False, workers=8):
+def job(wd, texts, np, shared, seq, invs, view=True, terminals=False, timeout=1800, allow=False, workers=8, toggle=False):
     c = CFG % dict(np=np, shared='TRUE' if shared else 'FALSE', seq='TRUE' if seq else 'FALSE',
                    invs='\n'.join('INVARIANT ' + i for i in invs), view='VIEW SchedView' if view else '')
+    if toggle:
+        c = c.replace('CONSTANTS\n', 'CONSTANTS\n Toggle <- MCToggle\n', 1)
     if terminals:
         c += 'CONSTRAINT PrintTerminal\n'
         workers = 1
@@ -217,8 +220,15 @@ def run(rep, tier, seed, keep=False):
     old_switch = sys.getswitchinterval()
     try:
         small = MODEL_TEXTS[:8]
-        invs = ['Isolation', 'OwnTokens', 'NoSharedLexer']
+        invs = ['Isolation', 'OwnTokens', 'NoSharedLexer', 'ProcessStateRestored']
+        big = [('a',), ('B',), ('a', 'o', 'B'), ('B', 'o')]
         # ---------------- M
+        r = job(wd, big, 2, False, False, invs)
+        rep.tlc('EngineParse/M clone, 2 concurrent parses with numerals above the conversion limit', r)
+        r = job(wd, big, 2, False, False, ['Isolation'], allow=True, toggle=True)
+        if 'Isolation' not in r.violated:
+            raise tlc.TLCError('negative model job (process-wide setting toggled per parse) did not violate Isolation\n' + r.out[-1500:])
+        rep.tlc('EngineParse/M engine toggling a process-wide setting per parse (must violate Isolation)', r)
         r = job(wd, small, 2, False, False, invs)
         rep.tlc('EngineParse/M clone, 2 concurrent parses', r)
         r = job(wd, MODEL_TEXTS[:5] if quick else small, 3, False, False, invs, workers=16)
@@ -236,10 +246,10 @@ def run(rep, tier, seed, keep=False):
         nsched = 0
         ntriv = 0
 
-        def replay_states(states, label, engine, cap=None, force=None):
+        def replay_states(states, label, engine, cap=None, force=None, reset=False):
             nonlocal nsched, ntriv
             todo = list(states)
-            if force:
+            if force and not reset:
                 todo = [st for st in todo if any(force(gtexts[i - 1]) for i in _vals(st['text']))]
             if cap and len(todo) > cap:
                 todo = rng.sample(todo, cap)
@@ -248,7 +258,7 @@ def run(rep, tier, seed, keep=False):
                 mts = [gtexts[i - 1] for i in text]
                 texts = {p + 1: (force and force(mt)) or concretise(mt, rng) for p, mt in enumerate(mts)}
                 schedule = list(st['sched'])
-                if force and hasattr(sys, 'set_int_max_str_digits'):
+                if (force or reset) and hasattr(sys, 'set_int_max_str_digits'):
                     sys.set_int_max_str_digits(INT_LIMIT)       # every schedule starts from the process state the harness started with
                 res, s = run_schedule(engine, texts, schedule)
                 nsched += 1
@@ -282,9 +292,13 @@ def run(rep, tier, seed, keep=False):
         r = job(wd, gtexts, 2, False, False, invs, view=False, terminals=True)
         rep.tlc('EngineParse/G schedules of 2 parses', r)
         n2 = replay_states(terminals(r), 'schedule2', engine, cap=2500 if quick else None)
-        # every interleaving again with the one-numeral text spelled longer than the interpreter's conversion limit: a parse
-        # must not depend on process-wide settings another parse is changing
-        n2 += replay_states(terminals(r), 'schedule2', engine, cap=600 if quick else None, force=lambda mt: '7' * 4400 if mt == ('b',) else None)
+        # every interleaving of texts holding a numeral above the interpreter's conversion limit (token "B" of the model): a
+        # parse must not depend on process-wide settings another parse is changing; each schedule starts from the process
+        # state the harness started with
+        gtexts = big
+        r = job(wd, gtexts, 2, False, False, invs, view=False, terminals=True)
+        rep.tlc('EngineParse/G schedules of 2 parses with numerals above the conversion limit', r)
+        n2 += replay_states(terminals(r), 'schedule2', engine, cap=600 if quick else None, force=lambda mt: None, reset=True)
         gtexts = [('a',), ('o',), ('a', 'b')] if quick else [('a',), ('o',), ('a', 'b'), ('a', 'o', 'b')]
         r = job(wd, gtexts, 3, False, False, invs, view=False, terminals=True)
         rep.tlc('EngineParse/G schedules of 3 parses', r)
